@@ -221,6 +221,23 @@ def check(facts, rep, tier, cfg):
     rep.rule("C06.S1", "S1: every message taken off the outbound queue is handed to the WebSocket sink by the send loop (= C02.R2): the frames this property relies on are not dropped, deduplicated or reordered on the way out")
     import_outbound_queue_rule(facts, rep, tier, cfg, "C06.S1")
     import_constructor_rule(facts, rep, "C06.S9", ['new_reset'])
+    rep.rule("C06.R9", "an aborted stream's writer learns of it: the closed flag is set BEFORE the writer is woken on every path of the closing "
+                       "helper (= C12.R2) - woken first, a writer polled in the gap sees `open, no credit`, parks again and never fails")
+    from shared import s3b_wake_after_write as _s3b
+    n9 = 0
+    for b9 in crate.bodies:
+        ok9, bad9 = _s3b(facts, b9)
+        for bi, f, a in ok9:
+            if f.endswith(".finish_sent"):
+                n9 += 1
+                rep.ok("C06.R9", "%s/%s" % (b9.path, a), "%s (%s)" % (loc_str(b9.term(bi)["loc"]), b9.path), "%s on %s then wake" % (a, f))
+        for bi, f, a in bad9:
+            if f.endswith(".finish_sent"):
+                n9 += 1
+                rep.bad("C06.R9", "%s/%s" % (b9.path, a), "%s (%s)" % (loc_str(b9.term(bi)["loc"]), b9.path),
+                        "%s on %s is not followed by AtomicWaker::wake on every path: a writer parked on the aborted stream is woken before the "
+                        "flag is set (or not at all) and stays parked instead of failing" % (a, f))
+    rep.floor("C06.R9", "closed-flag writes followed by wake", n9, 1)
     rep.rule("C06.S7", "who-may: the functions that touch the critical resources behind this property are those of the reference tree (flow table, closed flag, per-stream / datagram / outbound queues, last-pong timestamp, client id maps, shared TLS identity)")
     import whomay
     whomay.check(facts, rep, "C06.S7", "C06")
